@@ -269,7 +269,7 @@ class Integer(base.SimpleAsn1Type):
             return str(self.namedValues[value])
 
         except KeyError:
-            return str(value)
+            return integer.to_string(value)
 
     # backward compatibility
 
@@ -1248,7 +1248,7 @@ class ObjectIdentifier(base.SimpleAsn1Type):
         raise error.PyAsn1Error('Malformed Object ID %s at %s' % (value, self.__class__.__name__))
 
     def prettyOut(self, value):
-        return '.'.join([str(x) for x in value])
+        return '.'.join([integer.to_string(x) for x in value])
 
 
 class Real(base.SimpleAsn1Type):
